@@ -867,6 +867,10 @@ func (r *runningStep) provideEnablingInput(input map[string]any) error {
 	// This is an optional field, so no input means enabled.
 	enabled := input["enabled"] == nil || input["enabled"] == true
 	r.enabledInputAvailable = true
+	// Make sure we transition the state before unlocking so there are no race conditions.
+	if r.state == step.RunningStepStateWaitingForInput && r.currentStage == StageIDEnabling {
+		r.state = step.RunningStepStateRunning
+	}
 	r.enabledInput <- enabled
 	return nil
 }
@@ -899,6 +903,9 @@ func (r *runningStep) provideStartingInput(input map[string]any) error {
 
 	// Make sure we transition the state before unlocking so there are no race conditions.
 	r.runInputAvailable = true
+	if r.state == step.RunningStepStateWaitingForInput && r.currentStage == StageIDStarting {
+		r.state = step.RunningStepStateRunning
+	}
 
 	// Unlock before passing the data over the channel to prevent a deadlock.
 	// The other end of the channel needs to be unlocked to read the data.
@@ -1143,9 +1150,11 @@ func (r *runningStep) deployStage() (deployer.Plugin, bool, error) {
 		r.state = step.RunningStepStateRunning
 		r.lock.Unlock()
 	default: // Default, so it doesn't block on this receive
-		// It's waiting now.
+		// It's waiting now, unless the input was provided since the attempt above.
 		r.lock.Lock()
-		r.state = step.RunningStepStateWaitingForInput
+		if !r.deployInputAvailable {
+			r.state = step.RunningStepStateWaitingForInput
+		}
 		r.lock.Unlock()
 		select {
 		case deployerConfig = <-r.deployInput:
@@ -1185,7 +1194,12 @@ func (r *runningStep) enableStage() (bool, bool) {
 	previousStage := string(r.currentStage)
 	r.currentStage = StageIDEnabling
 	enabledInputAvailable := r.enabledInputAvailable
-	r.state = step.RunningStepStateWaitingForInput
+	// Only show as waiting if the input was not provided yet; the deadlock detection counts waiting steps.
+	if enabledInputAvailable {
+		r.state = step.RunningStepStateRunning
+	} else {
+		r.state = step.RunningStepStateWaitingForInput
+	}
 	r.lock.Unlock()
 
 	r.stageChangeHandler.OnStageChange(
@@ -1518,6 +1532,10 @@ func (r *runningStep) transitionStageWithOutput(
 	r.currentStage = newStage
 	// Don't forget to update this, or else it will behave very oddly.
 	// First running, then finished. You can't skip states.
+	if state == step.RunningStepStateWaitingForInput && newStage == StageIDStarting && r.runInputAvailable {
+		// The input arrived since the caller looked for it, so the step is not waiting for it.
+		state = step.RunningStepStateRunning
+	}
 	r.state = state
 	r.lock.Unlock()
 	r.stageChangeHandler.OnStageChange(
